@@ -271,7 +271,8 @@ func (g *gen) pattern(base int, depth *int, nest int) []ins {
 		case 0:
 			child = append(r.Bytes(0), deferredTails[r.Intn(len(deferredTails))]...)
 		case 1:
-			child = []byte{0x51, 0x63, 0, 0, 0, 0} // loops until its limit is gone
+			child = []byte{0x51, 0x63, 0, 0, 0, 0} // loops until its limit is gone (the stack grows: trace is quadratic)
+			g.feat["gas-loop"] = true
 		default:
 			cd := nargs
 			child = assemble(g.program(1+r.Intn(3), &cd, nest+1))
@@ -440,6 +441,10 @@ func verifyBounded(cs *vmlib.Case, gas int64, d time.Duration) (int64, error, bo
 	}
 }
 
+type countWriter struct{ n int64 }
+
+func (w *countWriter) Write(p []byte) (int, error) { w.n += int64(len(p)); return len(p), nil }
+
 type seg struct {
 	depth  int
 	pc     uint64
@@ -605,6 +610,19 @@ func run(c *Ctx) error {
 			c.Stats.Case(fmt.Sprintf("%x|%d", cs.Code, cs.Gas), true)
 			hung = true
 			break
+		}
+		// a loop that grows the stack prints a trace quadratic in the number of steps: measure first
+		var cw countWriter
+		vm.TraceOut = &cw
+		vm.Verify(cs.Context(), cs.Gas)
+		vm.TraceOut = nil
+		if cw.n > 24<<20 {
+			c.Stats.Count("trace-too-large-skipped")
+			c.Stats.Case(fmt.Sprintf("%x|%x|%d", cs.Code, cs.Args, cs.Gas), false)
+			if gas0 < 0 || gas0 > cs.Gas {
+				fail(fmt.Sprintf("class=gas-range: gas left %d outside [0,%d]", gas0, cs.Gas))
+			}
+			continue
 		}
 		// traced run for the oracle, traced run of vmlib for the correspondence
 		gasT, errT, segs := tracedRun(cs)
